@@ -1232,6 +1232,45 @@ def c17_programs(tier, sd):
                ["randomize", ["top"]], ["vsc_randomize_with", [["top", "s1"]], [E([">", F("top", "s1", "x"), lit(255)])]], ["randomize", ["top"]]]
         out.append({"tag": "hooks", "desc": "tree s1 rand=%s s2 rand=%s list rand=%s" % (r1, r2, rl), "prog": pr,
                     "world": [["top", "obj", "Top"], ["other", "obj", "Top"]], "ops": ops})
+    # seeded random histories over the tree: rand_mode switches at every level, assignments, all call kinds (also failing ones)
+    for i in range(6 if tier == "quick" else 3000):
+        r1, r2, rl = (rnd.random() < 0.7), (rnd.random() < 0.5), (rnd.random() < 0.6)
+        Top = {"name": "Top", "fields": [fld("a", ("u", 8)), fld("t", ("u", 8), False), ["s1", "obj", "Sub", r1], ["s2", "obj", "Sub", r2],
+                                         ["l", "list", ["obj", "Leaf"], 2, rl, False]],
+               "blocks": [["tb", "c", [E(["==", F("a"), ["+", F("t"), lit(1)]]), E(["<", F("s1", "x"), lit(250)])]]],
+               "pre_randomize": [["set", ["t"], rnd.randint(0, 200)]], "post_randomize": []}
+        pr = {"enums": {}, "classes": [Leaf, Sub, Top]}
+        ops = []
+        objs = [["top"], ["top", "s1"], ["top", "s2"], ["top", "s1", "inner"], ["top", "s1", "kid"], ["top", "s2", "inner"], ["top", "s2", "kid"],
+                ["top", "l", 0], ["top", "l", 1]]
+        for _ in range(rnd.randint(4, 10)):
+            k = rnd.random()
+            if k < 0.3:
+                # rand_mode is a per-field switch (documented for rand-qualified scalar fields)
+                ops.append(["rand_mode", rnd.choice([["top", "a"], ["top", "s1", "x"], ["top", "s2", "x"], ["top", "s1", "inner", "p"], ["top", "l", 0, "p"], ["top", "l", 1, "p"]]),
+                            rnd.random() < 0.5])
+            elif k < 0.45:
+                ops.append(["set", rnd.choice([["top", "t"], ["top", "s1", "m"], ["top", "s2", "m"], ["top", "s1", "inner", "n"], ["top", "s2", "kid", "n"], ["top", "l", 1, "n"]]),
+                            rnd.randint(0, 255)])
+            elif k < 0.6:
+                ops.append(["randomize", ["top"]])
+            elif k < 0.7:
+                ops.append(["randomize_with", ["top"], [E([rnd.choice(["<", ">", "!="]), F("a"), lit(rnd.randint(0, 255))])]])
+            elif k < 0.85:
+                roots = rnd.sample(objs, rnd.randint(1, 2))
+                # roots must not be nested in one another
+                if len(roots) == 2 and (roots[0] == roots[1][:len(roots[0])] or roots[1] == roots[0][:len(roots[1])]):
+                    roots = roots[:1]
+                ops.append(["vsc_randomize", roots])
+            elif k < 0.93:
+                o = rnd.choice([["top", "s1"], ["top", "s2", "kid"], ["top", "l", 0]])
+                leaf = "x" if o == ["top", "s1"] else "p"
+                ops.append(["vsc_randomize_with", [o], [E([">", F(*(o + [leaf])), lit(255)])]])
+            else:
+                ops.append(["randomize_with", ["top"], [E(["==", F("a"), lit(1)]), E(["==", F("a"), lit(2)])]])
+        ops.append(["randomize", ["top"]])
+        out.append({"tag": "hooks_random", "desc": "seeded random hook history #%d (s1 rand=%s s2 rand=%s list rand=%s)" % (i, r1, r2, rl), "prog": pr,
+                    "world": [["top", "obj", "Top"]], "ops": ops})
     # random-size lists: of objects with hooks (solved to fewer elements than were appended), and a scalar one whose size depends on
     # a non-random field that pre_randomize assigns
     for nobj, bound in ((4, 3), (3, 1), (2, 2)):
